@@ -1,7 +1,8 @@
 (* RadixSim.v -- every operation of RadixModel is simulated by the same operation of HeapModel
    on the flat map that the tree implements. *)
 From Coq Require Import List ZArith Bool Lia FMapPositive.
-From Ivv Require Import Timer.HeapModel Timer.HeapSpec Timer.HeapBase Timer.RadixModel Timer.RadixSpec
+From Ivv Require Import Timer.HeapModel Timer.HeapSpec Timer.HeapBase Timer.HeapSift Timer.HeapFacts Timer.HeapReg
+  Timer.HeapUnreg Timer.HeapCollect Timer.HeapDispatch Timer.RadixModel Timer.RadixSpec
   Timer.RadixArith Timer.RadixMem Timer.RadixGetNode Timer.RadixFree.
 Import ListNotations.
 Local Open Scope Z_scope.
@@ -10,7 +11,7 @@ Ltac Zify.zify_post_hook ::= Z.div_mod_to_equations.
 
 (* the simulation relation with its ghost parameters exposed *)
 Definition Ref (rs : rstate) (s : tstate) (na : Z -> Z -> Z) (H : Z) : Prop :=
-  ShapeH rs na H /\ Rel rs s na H /\ num s <= H.
+  ShapeH rs na H /\ Rel rs s na H /\ (num s <= H /\ H < POP_BOUND).
 
 Lemma Ref_depth : forall rs s na H, Ref rs s na H ->
   0 <= depth s /\ H < cap (depth s) /\ depth s = rdepth rs /\ num s = rnum rs /\ 0 <= H.
@@ -192,7 +193,8 @@ Lemma rpush_down_eq : forall fuel rs index i,
   match fuel with
   | O => Bad EFuel
   | S f =>
-      if 2 * index <=? rnum rs then
+      do i2 <- chk_int (2 * index);
+      if i2 <=? rnum rs then
         do x <- rget_node rs (2 * index);
         let '(rs1, p) := x in
         do ti <- deref_timer rs1 i;
@@ -214,6 +216,12 @@ Lemma rpush_down_eq : forall fuel rs index i,
   end.
 Proof. intros. destruct fuel; reflexivity. Qed.
 
+Lemma chk_int_ok : forall x, x <= INT_MAX -> chk_int x = Good x.
+Proof. intros x H. unfold chk_int. replace (x <=? INT_MAX) with true by (symmetry; apply Z.leb_le; assumption). reflexivity. Qed.
+
+Lemma pop_bound_int : forall x, x < POP_BOUND -> 2 * x + 1 <= INT_MAX.
+Proof. intros x H. unfold POP_BOUND, INT_MAX in *. lia. Qed.
+
 Lemma p_of_succ_even : forall na i, p_of na (2 * i) + 1 = p_of na (2 * i + 1).
 Proof.
   intros. unfold p_of, NODES.
@@ -227,7 +235,9 @@ Proof.
   induction fuel as [|f IH]; intros rs s na H i s' Rf Hi E; rewrite push_down_eq in E; rewrite rpush_down_eq.
   - discriminate.
   - destruct (sget s i) as [ti|] eqn:Ei; [|discriminate].
-    destruct (Ref_depth _ _ _ _ Rf) as (_ & _ & _ & En & _). rewrite <- En.
+    destruct (Ref_depth _ _ _ _ Rf) as (_ & _ & _ & En & _).
+    rewrite chk_int_ok by (pose proof (pop_bound_int i ltac:(destruct Rf as (_ & _ & K); lia)); lia).
+    unfold bind at 1. rewrite <- En.
     destruct (Z.leb_spec (2 * i) (num s)) as [L|L].
     2:{ inversion E; subst. exists rs. auto. }
     assert (N : num s <= H) by apply Rf.
@@ -281,26 +291,31 @@ Qed.
 Lemma num_set_depth : forall s d, num (set_depth s d) = num s.
 Proof. reflexivity. Qed.
 
+Lemma P5_bound : POP_BOUND < P 5.
+Proof. reflexivity. Qed.
+
 Lemma sim_get_node_last : forall rs s na H, ShapeH rs na H -> Rel rs s na H -> 1 <= num s <= H + 1 ->
+  H < POP_BOUND -> num s < POP_BOUND ->
   exists rs1 s1 na1 H1, get_node s (num s) = Some s1 /\ rget_node rs (num s) = Good (rs1, p_of na1 (num s)) /\
     Ref rs1 s1 na1 H1 /\ num s1 = num s.
 Proof.
-  intros rs s na H SH R N.
+  intros rs s na H SH R N HB NB.
   destruct (Z_le_gt_dec (num s) H) as [L|L].
   - assert (Rf : Ref rs s na H) by (split; [assumption|split; [assumption|lia]]).
     destruct (sim_get_node rs s na H (num s) Rf ltac:(lia)) as [G1 G2].
     exists rs, s, na, H. auto.
-  - assert (E : num s = H + 1) by lia.
-    destruct (rget_node_next rs s na H SH R) as (rs' & na' & G2 & SH' & R' & G1). cbv zeta in *.
+  - assert (E : num s = H + 1) by lia. pose proof P5_bound as P5.
+    destruct (rget_node_next rs s na H SH R ltac:(lia)) as (rs' & na' & G2 & SH' & R' & G1). cbv zeta in *.
     rewrite <- E in *.
     eexists rs', _, na', (num s). split; [exact G1|]. split; [exact G2|]. split; [|reflexivity].
     split; [exact SH'|]. split; [exact R'|]. rewrite num_set_depth. lia.
 Qed.
 
-Lemma rregister_sim : forall rs s na H t s', Ref rs s na H -> register s t = Ok s' ->
+Lemma rregister_sim : forall rs s na H t s', Ref rs s na H -> num s + 1 < POP_BOUND ->
+  register s t = Ok s' ->
   exists rs' na' H', rregister rs t = ROk rs' /\ Ref rs' s' na' H'.
 Proof.
-  intros rs s na H t s' Rf E. unfold register in E. unfold rregister.
+  intros rs s na H t s' Rf NB E. unfold register in E. unfold rregister.
   rewrite (Ref_tidx rs s na H t Rf).
   destruct (negb (tidx s t =? -1)); [discriminate|]. cbv zeta in *.
   destruct Rf as (SH & R & N).
@@ -323,8 +338,9 @@ Proof.
   { destruct (get_node sb (num s + 1)) eqn:G; [|discriminate].
     Local Transparent get_node. unfold get_node in G. Local Opaque get_node.
     destruct (0 <? num s + 1) eqn:Z0; [apply Z.ltb_lt in Z0; lia|cbn in G; discriminate]. }
-  destruct (sim_get_node_last rsb sb na H SHb Rb ltac:(lia)) as (rs1 & s1 & na1 & H1 & G1 & G2 & Rf1 & N1).
-  rewrite Nb in G1, G2. rewrite G1 in E. unfold lift, bind. rewrite G2.
+  destruct (sim_get_node_last rsb sb na H SHb Rb ltac:(lia) ltac:(lia) ltac:(lia)) as (rs1 & s1 & na1 & H1 & G1 & G2 & Rf1 & N1).
+  rewrite Nb in G1, G2. rewrite G1 in E. unfold lift.
+  rewrite chk_int_ok by (unfold POP_BOUND, INT_MAX in *; lia). unfold bind. rewrite G2.
   assert (Hi : 1 <= num s + 1 <= H1) by (destruct Rf1 as (_ & _ & K); lia).
   destruct (sim_store rs1 s1 na1 H1 (num s + 1) (Some t) Rf1 Hi) as (rs2 & St2 & Rf2 & _).
   cbn [cell_of] in St2. rewrite St2.
@@ -391,6 +407,16 @@ Lemma Ref_fields : forall rs s na H, Ref rs s na H ->
   now s = now (hs rs).
 Proof. intros rs s na H (_ & R & _). destruct (Rel_fields _ _ _ _ R) as (A & B & _ & C & D & E). auto. Qed.
 
+Lemma shrink_test_ok : forall d n, 0 <= d <= 4 ->
+  (if 0 <? d then do lim <- shl1_int (d * SPLIT_BITS); Good (n =? lim) else Good false) =
+  Good ((0 <? d) && (n =? P d)).
+Proof.
+  intros d n Hd. destruct (0 <? d); [|reflexivity]. unfold shl1_int, INT_BITS.
+  replace (0 <=? d * SPLIT_BITS) with true by (symmetry; apply Z.leb_le; unfold SPLIT_BITS; lia).
+  replace (d * SPLIT_BITS <? 32 - 1) with true by (symmetry; apply Z.ltb_lt; unfold SPLIT_BITS; lia).
+  unfold bind. cbn [andb]. rewrite shiftl_P by lia. reflexivity.
+Qed.
+
 Lemma runregister_sim : forall rs s na H t s', Ref rs s na H -> unregister s t = Ok s' ->
   exists rs' H', runregister rs t = ROk rs' /\ Ref rs' s' na H'.
 Proof.
@@ -435,7 +461,11 @@ Proof.
     rewrite sget_set_idx. apply sget_sset_same. lia. }
   destruct (Ref_depth _ _ _ _ Rf) as (Dp0 & _).
   (* the shrink test *)
-  rewrite Ed3, D3 in *. rewrite shiftl_P by assumption. rewrite pow_P in E. rewrite <- ?En.
+  rewrite Ed3, D3 in *.
+  assert (D4 : 0 <= depth s <= 4).
+  { destruct Rf as ((S0 & _) & R0 & _). destruct (Rel_fields _ _ _ _ R0) as (_ & Ed0 & _).
+    rewrite Ed0. apply (sh_depth _ _ _ S0). }
+  rewrite shrink_test_ok by assumption. unfold bind at 1. rewrite pow_P in E. rewrite <- ?En.
   set (cond := (0 <? depth s) && (num s =? P (depth s))) in *.
   assert (S4 : exists rs4 H4,
             (if cond then rremove_level rs3 else Good rs3) = Good rs4 /\
@@ -508,15 +538,112 @@ Proof.
   apply Ref_set_idx. apply Ref_set_numobjs. exact Rf7.
 Qed.
 
+(* ---------- the population is bounded by the number of timer ids ---------- *)
+(* pigeonhole: an injection of 1..n into 1..m needs n <= m *)
+Lemma pigeonhole : forall (n : nat) (m : Z) (f : Z -> Z),
+  (forall i, 1 <= i <= Z.of_nat n -> 1 <= f i <= m) ->
+  (forall i j, 1 <= i <= Z.of_nat n -> 1 <= j <= Z.of_nat n -> f i = f j -> i = j) ->
+  Z.of_nat n <= m \/ n = O.
+Proof.
+  induction n as [|n IH]; intros m f R Inj; [right; reflexivity|left].
+  set (y := f (Z.of_nat (S n))).
+  assert (Ry : 1 <= y <= m) by (apply R; lia).
+  set (g := fun i => if f i <? y then f i else f i - 1).
+  assert (Ny : forall i, 1 <= i <= Z.of_nat n -> f i <> y).
+  { intros i Hi E. apply Inj in E; lia. }
+  destruct (IH (m - 1) g) as [L|Z0].
+  - intros i Hi. unfold g. pose proof (R i ltac:(lia)). pose proof (Ny i Hi).
+    destruct (Z.ltb_spec (f i) y); lia.
+  - intros i j Hi Hj E. unfold g in E.
+    pose proof (Ny i Hi). pose proof (Ny j Hj).
+    apply Inj; try lia.
+    destruct (Z.ltb_spec (f i) y), (Z.ltb_spec (f j) y); lia.
+  - lia.
+  - subst n. lia.
+Qed.
+
+Lemma num_below : forall s b, Inv s -> RegBelow b s -> 1 <= b -> num s < b.
+Proof.
+  intros s b I RB Hb. pose proof (i_num s I) as N0. pose proof (i_filled s I) as F.
+  set (f := fun i => match sget s i with Some t => Zpos t | None => 0 end).
+  destruct (pigeonhole (Z.to_nat (num s)) (b - 1) f) as [L|Z0].
+  - intros i Hi. rewrite Z2Nat.id in Hi by lia. destruct (F i Hi) as (t & E & T). unfold f. rewrite E.
+    specialize (RB t ltac:(lia)). lia.
+  - intros i j Hi Hj E. rewrite Z2Nat.id in Hi, Hj by lia.
+    destruct (F i Hi) as (t & Ei & Ti). destruct (F j Hj) as (t' & Ej & Tj).
+    unfold f in E. rewrite Ei, Ej in E. inversion E; subst t'. congruence.
+  - rewrite Z2Nat.id in L by lia. lia.
+  - assert (num s = 0) by lia. lia.
+Qed.
+
+Lemma abs_reg : forall s t, abs s t <> None <-> 1 <= tidx s t.
+Proof.
+  intros s t. unfold abs. destruct (Z.leb_spec 1 (tidx s t)); split; intros; try lia; try discriminate.
+  exfalso. apply H0. reflexivity.
+Qed.
+
+Lemma tsim_reg : forall s s' t, tsim s s' t -> 1 <= tidx s' t -> 1 <= tidx s t.
+Proof. intros s s' t T H. unfold tsim in T. lia. Qed.
+
+(* one guarded action keeps the invariant and the id bound *)
+Lemma do_act_below : forall s a s' b, Inv s -> RegBelow b s -> Zpos (act_id a) < b ->
+  fst (do_act s a) = Ok s' -> Inv s' /\ RegBelow b s' /\
+  (forall t e, a = AReg t e -> tidx s t = -1 -> num s' = num (set_exp s t e) + 1).
+Proof.
+  intros s a s' b I RB Ha E.
+  destruct (do_act_ok s a I) as (s1 & E1 & I1 & _). rewrite E in E1. inversion E1; subst s1. clear E1.
+  split; [assumption|].
+  destruct a as [t e|t]; cbn [do_act act_id] in *.
+  - destruct (Z.eqb_spec (tidx s t) (-1)) as [T|NT]; cbn [fst] in E.
+    + destruct (register_inv (set_exp s t e) t) as (s2 & R2 & _ & _ & Ts & _ & _ & Nn & _).
+      * apply set_exp_inv; assumption.
+      * apply tget_set_exp_same.
+      * rewrite tidx_set_exp. assumption.
+      * rewrite E in R2. inversion R2; subst s2. split.
+        -- intros t' H'. destruct (Pos.eq_dec t' t) as [->|K]; [assumption|].
+           apply RB. pose proof (tsim_reg _ _ _ (Ts t' K) H') as H1. rewrite tidx_set_exp in H1. assumption.
+        -- intros t0 e0 Ea _. inversion Ea; subst. exact Nn.
+    + inversion E; subst s'. split; [assumption|]. intros t0 e0 Ea T0. inversion Ea; subst. contradiction.
+  - split; [|intros; discriminate].
+    destruct (Z.eqb_spec (tidx s t) (-1)) as [T|NT]; cbn [fst] in E.
+    + inversion E; subst s'. assumption.
+    + pose proof (proj2 (proj2 (i_batch s I)) t) as Ge.
+      destruct (Z.eq_dec (tidx s t) 0) as [Z0|NZ].
+      * rewrite (unregister_expired_eq s t Z0) in E. inversion E; subst s'.
+        destruct (pop_inv s t I Z0) as (_ & Tt & To & _).
+        intros t' H'. destruct (Pos.eq_dec t' t) as [->|K]; [cbv zeta in Tt; lia|].
+        apply RB. rewrite <- (To t' K). assumption.
+      * destruct (unregister_inv s t I ltac:(lia)) as (s2 & U & _ & Tt & Ts & _).
+        rewrite E in U. inversion U; subst s2.
+        intros t' H'. destruct (Pos.eq_dec t' t) as [->|K]; [lia|].
+        apply RB. apply (tsim_reg _ _ _ (Ts t' K) H').
+Qed.
+
+Lemma do_acts_below : forall l s s' b, Inv s -> RegBelow b s -> acts_below b l ->
+  do_acts s l = Ok s' -> Inv s' /\ RegBelow b s'.
+Proof.
+  induction l as [|a l IH]; intros s s' b I RB Hl E; cbn [do_acts] in E.
+  - inversion E; subst. auto.
+  - destruct (fst (do_act s a)) as [s1| |] eqn:Ea; try discriminate.
+    destruct (do_act_below s a s1 b I RB (Hl a (or_introl eq_refl)) Ea) as (I1 & RB1 & _).
+    apply (IH s1 s' b I1 RB1); [|assumption]. intros x Hx. apply Hl. right. assumption.
+Qed.
+
 (* ---------- guarded actions, iv_run_timers, top-level steps ---------- *)
-Lemma rdo_act_sim : forall rs s na H a s' rc, Ref rs s na H -> do_act s a = (Ok s', rc) ->
+Lemma rdo_act_sim : forall rs s na H a s' rc, Ref rs s na H -> Inv s -> RegBelow POP_BOUND s ->
+  Zpos (act_id a) < POP_BOUND -> do_act s a = (Ok s', rc) ->
   exists rs' na' H', rdo_act rs a = (ROk rs', rc) /\ Ref rs' s' na' H'.
 Proof.
-  intros rs s na H a s' rc Rf E. destruct a as [t e|t]; cbn [do_act rdo_act] in *;
+  intros rs s na H a s' rc Rf I RB Ha E.
+  assert (E0 : fst (do_act s a) = Ok s') by (rewrite E; reflexivity).
+  destruct (do_act_below s a s' POP_BOUND I RB Ha E0) as (I' & RB' & Nn).
+  destruct a as [t e|t]; cbn [do_act rdo_act] in *;
     rewrite (Ref_tidx rs s na H t Rf).
-  - destruct (tidx s t =? -1).
+  - destruct (Z.eqb_spec (tidx s t) (-1)) as [T|NT].
     + inversion E as [[E1 E2]]. pose proof (Ref_set_exp rs s na H t e Rf) as Rf1.
-      destruct (rregister_sim _ _ na H t s' Rf1 E1) as (rs' & na' & H' & E' & Rf').
+      assert (NB : num (set_exp s t e) + 1 < POP_BOUND).
+      { rewrite <- (Nn t e eq_refl T). apply num_below; [assumption|assumption|unfold POP_BOUND; lia]. }
+      destruct (rregister_sim _ _ na H t s' Rf1 NB E1) as (rs' & na' & H' & E' & Rf').
       rewrite E'. exists rs', na', H'. auto.
     + inversion E; subst. exists rs, na, H. auto.
   - destruct (tidx s t =? -1).
@@ -526,15 +653,19 @@ Proof.
       rewrite E'. exists rs', na, H'. auto.
 Qed.
 
-Lemma rdo_acts_sim : forall l rs s na H s', Ref rs s na H -> do_acts s l = Ok s' ->
+Lemma rdo_acts_sim : forall l rs s na H s', Ref rs s na H -> Inv s -> RegBelow POP_BOUND s ->
+  acts_below POP_BOUND l -> do_acts s l = Ok s' ->
   exists rs' na' H', rdo_acts rs l = ROk rs' /\ Ref rs' s' na' H'.
 Proof.
-  induction l as [|a l IH]; intros rs s na H s' Rf E; cbn [do_acts rdo_acts] in *.
+  induction l as [|a l IH]; intros rs s na H s' Rf I RB Hl E; cbn [do_acts rdo_acts] in *.
   - inversion E; subst. exists rs, na, H. auto.
   - destruct (do_act s a) as [o rc] eqn:Ea. cbn [fst] in E.
     destruct o as [s1| |]; try discriminate.
-    destruct (rdo_act_sim rs s na H a s1 rc Rf Ea) as (rs1 & na1 & H1 & E1 & Rf1).
-    rewrite E1. cbn [fst]. apply (IH rs1 s1 na1 H1 s' Rf1 E).
+    assert (Ha : Zpos (act_id a) < POP_BOUND) by (apply Hl; left; reflexivity).
+    destruct (rdo_act_sim rs s na H a s1 rc Rf I RB Ha Ea) as (rs1 & na1 & H1 & E1 & Rf1).
+    destruct (do_act_below s a s1 POP_BOUND I RB Ha ltac:(rewrite Ea; reflexivity)) as (I1 & RB1 & _).
+    rewrite E1. cbn [fst]. apply (IH rs1 s1 na1 H1 s' Rf1 I1 RB1); [|assumption].
+    intros x Hx. apply Hl. right. assumption.
 Qed.
 
 Lemma collect_eq : forall fuel s,
@@ -606,51 +737,102 @@ Proof.
 Qed.
 
 Lemma rdispatch_sim : forall fuel sc rs s na H fired s' fired', Ref rs s na H ->
+  Inv s -> RegBelow POP_BOUND s -> scripts_below POP_BOUND sc ->
   dispatch fuel sc s fired = (Ok s', fired') ->
   exists rs' na' H', rdispatch fuel sc rs fired = (ROk rs', fired') /\ Ref rs' s' na' H'.
 Proof.
-  induction fuel as [|f IH]; intros sc rs s na H fired s' fired' Rf E;
+  induction fuel as [|f IH]; intros sc rs s na H fired s' fired' Rf I RB Hsc E;
     destruct (Ref_fields _ _ _ _ Rf) as (_ & _ & Eb & _).
   - cbn [dispatch rdispatch] in *. rewrite <- Eb. destruct (batch s); [|discriminate].
     inversion E; subst. exists rs, na, H. auto.
-  - cbn [dispatch rdispatch] in *. rewrite <- Eb. destruct (batch s) as [|t rest].
+  - cbn [dispatch rdispatch] in *. rewrite <- Eb. destruct (batch s) as [|t rest] eqn:Ebs.
     + inversion E; subst. exists rs, na, H. auto.
     + cbv zeta in *.
       assert (Rf1 : Ref (rset_idx (set_hs rs (set_batch (hs rs) rest)) t (-1))
                         (set_idx (set_batch s rest) t (-1)) na H).
       { apply Ref_set_idx. apply Ref_set_batch. exact Rf. }
+      assert (T0 : tidx s t = 0).
+      { apply (proj1 (i_batch s I)). rewrite Ebs. left. reflexivity. }
+      destruct (pop_inv s t I T0) as (I1 & Tt & To & _).
+      rewrite Ebs in I1, Tt, To. cbn [remove_first] in I1, Tt, To. rewrite Pos.eqb_refl in I1, Tt, To.
+      assert (RB1 : RegBelow POP_BOUND (set_idx (set_batch s rest) t (-1))).
+      { intros t' H'. destruct (Pos.eq_dec t' t) as [->|K]; [lia|]. apply RB. rewrite <- (To t' K). assumption. }
       destruct (do_acts (set_idx (set_batch s rest) t (-1)) (sc t)) as [s2| |] eqn:Ea;
         try (inversion E; fail).
-      destruct (rdo_acts_sim (sc t) _ _ na H s2 Rf1 Ea) as (rs2 & na2 & H2 & E2 & Rf2).
-      rewrite E2. apply (IH sc rs2 s2 na2 H2 _ s' fired' Rf2 E).
+      destruct (rdo_acts_sim (sc t) _ _ na H s2 Rf1 I1 RB1 (Hsc t) Ea) as (rs2 & na2 & H2 & E2 & Rf2).
+      destruct (do_acts_below (sc t) _ s2 POP_BOUND I1 RB1 (Hsc t) Ea) as (I2 & RB2).
+      rewrite E2. apply (IH sc rs2 s2 na2 H2 _ s' fired' Rf2 I2 RB2 Hsc E).
 Qed.
 
 Lemma rrun_timers_sim : forall sc rs s na H clock s' fired, Ref rs s na H ->
+  Inv s -> batch s = [] -> RegBelow POP_BOUND s -> scripts_below POP_BOUND sc ->
   run_timers sc s clock = (Ok s', fired) ->
   exists rs' na' H', rrun_timers sc rs clock = (ROk rs', fired) /\ Ref rs' s' na' H'.
 Proof.
-  intros sc rs s na H clock s' fired Rf E. unfold run_timers in E. unfold rrun_timers.
+  intros sc rs s na H clock s' fired Rf I B RB Hsc E. unfold run_timers in E. unfold rrun_timers.
   destruct (Ref_fields _ _ _ _ Rf) as (En & _). rewrite <- En.
   destruct (num s =? 0).
   - inversion E; subst. exists rs, na, H. auto.
   - cbv zeta in *. pose proof (Ref_set_now rs s na H clock Rf) as Rf0.
     change (rnum (set_hs rs (set_now (hs rs) clock))) with (rnum rs). rewrite <- En.
     change (num (set_now s clock)) with (num s) in E.
-    destruct (collect (S (Z.to_nat (num s))) (set_now s clock)) as [s1| |] eqn:Ec; try (inversion E; fail).
+    destruct (collect_round s clock I B) as (s1 & Ec & I1 & _ & _ & Sub & _).
+    rewrite Ec in E.
     destruct (rcollect_sim _ _ _ na H s1 Rf0 Ec) as (rs1 & H1 & E1 & Rf1).
     rewrite E1. destruct (Ref_fields _ _ _ _ Rf1) as (_ & _ & Eb1 & _). rewrite <- Eb1.
-    apply (rdispatch_sim _ sc rs1 s1 na H1 [] s' fired Rf1 E).
+    assert (RB1 : RegBelow POP_BOUND s1).
+    { intros t H'. apply RB. apply abs_reg. apply abs_reg in H'.
+      destruct (abs s1 t) as [e|] eqn:Ea; [|congruence]. destruct (Sub t e Ea) as [_ K]. congruence. }
+    apply (rdispatch_sim _ sc rs1 s1 na H1 [] s' fired Rf1 I1 RB1 Hsc E).
 Qed.
 
+Definition op_below (b : Z) (o : op) : Prop :=
+  match o with OAct a => Zpos (act_id a) < b | ORun _ => True end.
+
 Lemma rstep_sim : forall sc rs s na H o s' rc fired, Ref rs s na H ->
+  Inv s -> batch s = [] -> RegBelow POP_BOUND s -> scripts_below POP_BOUND sc -> op_below POP_BOUND o ->
   step sc s o = (Ok s', rc, fired) ->
   exists rs' na' H', rstep sc rs o = (ROk rs', rc, fired) /\ Ref rs' s' na' H'.
 Proof.
-  intros sc rs s na H o s' rc fired Rf E. destruct o as [a|c]; cbn [step rstep] in *.
+  intros sc rs s na H o s' rc fired Rf I B RB Hsc Ho E. destruct o as [a|c]; cbn [step rstep op_below] in *.
   - destruct (do_act s a) as [r rc0] eqn:Ea. inversion E; subst.
-    destruct (rdo_act_sim rs s na H a s' rc Rf Ea) as (rs' & na' & H' & E' & Rf').
+    destruct (rdo_act_sim rs s na H a s' rc Rf I RB Ho Ea) as (rs' & na' & H' & E' & Rf').
     rewrite E'. exists rs', na', H'. auto.
   - destruct (run_timers sc s c) as [r f] eqn:Er. inversion E; subst.
-    destruct (rrun_timers_sim sc rs s na H c s' fired Rf Er) as (rs' & na' & H' & E' & Rf').
+    destruct (rrun_timers_sim sc rs s na H c s' fired Rf I B RB Hsc Er) as (rs' & na' & H' & E' & Rf').
     rewrite E'. exists rs', na', H'. auto.
+Qed.
+
+(* the id bound is kept by a top-level step *)
+Lemma dispatch_below : forall fuel sc s1 fired0 s' fired', Inv s1 -> RegBelow POP_BOUND s1 ->
+  scripts_below POP_BOUND sc -> dispatch fuel sc s1 fired0 = (Ok s', fired') -> RegBelow POP_BOUND s'.
+Proof.
+  induction fuel as [|f IH]; intros sc s1 fired0 s' fired' I1 RB1 Hsc Er; cbn [dispatch] in Er.
+  - destruct (batch s1); [inversion Er; subst; assumption|discriminate].
+  - destruct (batch s1) as [|t rest] eqn:Ebs; [inversion Er; subst; assumption|].
+    assert (T0 : tidx s1 t = 0) by (apply (proj1 (i_batch s1 I1)); rewrite Ebs; left; reflexivity).
+    destruct (pop_inv s1 t I1 T0) as (I2 & Tt & To & _).
+    rewrite Ebs in I2, Tt, To. cbn [remove_first] in I2, Tt, To. rewrite Pos.eqb_refl in I2, Tt, To.
+    assert (RB2 : RegBelow POP_BOUND (set_idx (set_batch s1 rest) t (-1))).
+    { intros t' H'. destruct (Pos.eq_dec t' t) as [->|K]; [lia|]. apply RB1. rewrite <- (To t' K). assumption. }
+    destruct (do_acts (set_idx (set_batch s1 rest) t (-1)) (sc t)) as [s2| |] eqn:Ea; try (inversion Er; fail).
+    destruct (do_acts_below (sc t) _ s2 POP_BOUND I2 RB2 (Hsc t) Ea) as (I3 & RB3).
+    apply (IH sc s2 _ s' fired' I3 RB3 Hsc Er).
+Qed.
+
+Lemma step_below : forall sc s o s' rc fired, Inv s -> batch s = [] -> RegBelow POP_BOUND s ->
+  scripts_below POP_BOUND sc -> op_below POP_BOUND o -> step sc s o = (Ok s', rc, fired) ->
+  RegBelow POP_BOUND s'.
+Proof.
+  intros sc s o s' rc fired I B RB Hsc Ho E. destruct o as [a|c]; cbn [step op_below] in *.
+  - destruct (do_act s a) as [r rc0] eqn:Ea. inversion E; subst.
+    apply (do_act_below s a s' POP_BOUND I RB Ho ltac:(rewrite Ea; reflexivity)).
+  - destruct (run_timers sc s c) as [r f] eqn:Er. inversion E; subst. clear E.
+    unfold run_timers in Er. destruct (num s =? 0); [inversion Er; subst; assumption|]. cbv zeta in Er.
+    change (num (set_now s c)) with (num s) in Er.
+    destruct (collect_round s c I B) as (s1 & Ec & I1 & _ & _ & Sub & _). rewrite Ec in Er.
+    assert (RB1 : RegBelow POP_BOUND s1).
+    { intros t H'. apply RB. apply abs_reg. apply abs_reg in H'.
+      destruct (abs s1 t) as [e|] eqn:Ea; [|congruence]. destruct (Sub t e Ea) as [_ K]. congruence. }
+    apply (dispatch_below _ sc s1 [] s' fired I1 RB1 Hsc Er).
 Qed.
